@@ -168,6 +168,7 @@ func init() {
 				return marks(s, "relay:multi-recipient") && refused > 0
 			})
 		partConcurrent(c, a, "C02")
+		partIntegrityStorm(c, a)
 		partStepThrough(c, a, []string{"join", "leave", "delete"})
 		partStepPairs(c, a, [][2]string{{"leave", "join2"}, {"join", "leave2"}, {"leave", "leave2"}})
 		partLagging(c, a)
@@ -179,6 +180,7 @@ func init() {
 			"at least 5 distinct request kinds, at least one success and at least 3 distinct refusal reasons were answered and matched",
 			func(s *e1.Stats) bool { return len(s.Kinds) >= 5 && len(s.Accepted) >= 1 && distinctReasons(s) >= 3 })
 		reproDeferredCrossing(c, a)
+		partIntegrityStorm(c, a)
 		return a.finish(c)
 	}
 	registry["C05"] = func(c *check.Ctx) int {
@@ -220,6 +222,7 @@ func init() {
 			func(s *e1.Stats) bool {
 				return s.Marks["custom:near-limit"] > 0 || s.Marks["custom:duplicate-recipient"]+s.Marks["custom:stranger-recipient"]+s.Marks["custom:self-recipient"] > 0
 			})
+		partIntegrityStorm(c, a)
 		return a.finish(c)
 	}
 	registry["C16"] = func(c *check.Ctx) int {
